@@ -1,4 +1,5 @@
 """C09 - a file cut short at any byte yields only its complete records, then stops or raises the library error."""
+import datetime
 import io
 
 from ..ref import blocking as ref
@@ -38,7 +39,7 @@ def ipm_messages(ctx, n, salt=0):
     for i in range(n):
         k = (i + salt) % 5
         m = {'MTI': '1%03d' % (240 + k), 'DE2': '5%015d' % (i * 7 + salt), 'DE3': '00%04d' % i, 'DE4': 100 + i,
-             'DE12': '2301%02d120000' % (1 + i % 27)}
+             'DE12': datetime.datetime(2023, 1 + i % 12, 1 + i % 27, 12, i % 60, 0)}
         if k in (1, 3):
             m['PDS0023'] = 'NA%d' % i
             m['PDS0148'] = 'X' * (300 + 150 * k + (salt % 50))
